@@ -103,6 +103,12 @@ def check(ctx):
         lines.append(call("split_char", toks, [32])); lines.append(call("split_set", toks, [32, 99]))
         path = [ord(c) for c in "/".join(rng.choice(["dev", "a", ".", "xy"]) for _ in range(n // 3))]
         lines += [call("path_next", path), call("path_iterate", path), call("compare_node", path, path[:n // 2]), call("remove_prefix", path, path[:len(path) // 2])]
+    # every byte value as the single delimiter (NUL, 0x80.., 0xFF included), on texts that contain it at the start, inside, doubled and at the end
+    for d in range(256):
+        o = [x for x in (97, 98, 0, 255, 32) if x != d]
+        s = [d, o[0], o[1], d, d, o[2], o[3], d, o[0]] + ([d] if d % 2 else [])
+        lines.append(call("split_char", s, [d])); lines.append(call("join", s, [d]))
+        if d: lines.append(call("split_set", s, [d, o[0]]))
     script = []
     for i, ln in enumerate(lines):
         if i % 400 == 0: script.append("R")
